@@ -146,12 +146,14 @@ def compat : Agg → Agg → Bool
             | some m => compat m th
             | none => compatFirst kids1 th)
        else compatZip kids1 kids2)
+termination_by structural a => a
 
 /-- Fixed layouts: same keys in the same order, children pairwise compatible. -/
 def compatZip : List (Key × Agg) → List (Key × Agg) → Bool
   | [], [] => true
   | (k1, a) :: r1, (k2, b) :: r2 => k1 = k2 && compat a b && compatZip r1 r2
   | _, _ => false
+termination_by structural a => a
 
 /-- Sparse layouts: every key present on both sides must hold compatible children. -/
 def compatShared : List (Key × Agg) → List (Key × Agg) → Bool
@@ -160,11 +162,13 @@ def compatShared : List (Key × Agg) → List (Key × Agg) → Bool
     (match lookupK k1 kids2 with
      | some b => compat a b
      | none => true) && compatShared r1 kids2
+termination_by structural a => a
 
 /-- `compat (firstBin kids) th`, written as a recursion over `kids` to stay structural. -/
 def compatFirst : List (Key × Agg) → Agg → Bool
   | [], _ => true
   | (key, a) :: rest, th => if key = .nanflow then compatFirst rest th else compat a th
+termination_by structural a => a
 
 end
 
